@@ -588,6 +588,24 @@ def _val(e):
     return e
 
 
+def _narrows(lt, rv, d):
+    """Assigning rv to an integer object of type lt may change the value (fewer bits than the source expression and the
+    source is not known to fit)."""
+    lt = lt or {}
+    rt = rv.get("t") or {}
+    if lt.get("k") not in ("int", "bool", "enum") or rt.get("k") not in ("int", "bool", "enum"):
+        return False
+    lb, rb = lt.get("bits") or 0, rt.get("bits") or 0
+    if not lb or not rb or lb >= rb or lb >= 32:
+        return False            # int-sized and wider copies: the values this code base handles fit (stated assumption)
+    v = cval(rv)
+    lo_t, hi_t = (0, (1 << lb) - 1) if lt.get("signed") is False else (-(1 << (lb - 1)), (1 << (lb - 1)) - 1)
+    if v is not None:
+        return not (lo_t <= v <= hi_t)
+    key = pp(rv)
+    return not (d_holds(d, ">=", key, lo_t) and d_holds(d, "<=", key, hi_t))
+
+
 READERS = {"strlen", "strcmp", "strncmp", "strcasecmp", "strncasecmp", "memcmp", "htons", "ntohs", "htonl", "ntohl",
            "__bswap_16", "__bswap_32", "tolower", "toupper", "abs"}
 
@@ -847,6 +865,10 @@ class Analysis:
                         new.add(pf)
                 elif is_pure(rv) and rv.get("k") not in ("InitList", "Str") and (
                         lp[0][2] not in _rvars(rv) or _disjoint_write(lp, lhs.get("t"), rv)):
+                    if _narrows(lhs.get("t"), rv, d):
+                        # the stored value is the source cut to fewer bits: not equal to it in general, so bounds
+                        # tested on the copy say nothing about the original
+                        continue
                     new.add(Fact("==", lhs, rv))
                     if rv.get("k") == "Cond" and _min_unsigned(rv) and (lhs.get("t") or {}).get("bits", 0) >= 32:
                         # MIN evaluated in an unsigned type: the smaller operand is a non-negative value
